@@ -104,6 +104,7 @@ def handlers : List (String × (List Sexp → String)) := [
       | some s => toString (Sexp.list ((fnOwnSpec s).map fun (n, ow) => Sexp.list (Sexp.ofNat n :: (sortNat ow).map Sexp.ofNat)))
       | none => "bad-node"
     | _ => "bad-args"),
+  ("c05.visitors", fun _ => toString (Sexp.list (modelVisitors.map Sexp.atom))),
   ("c05.class", fun a => match a with
     | [x] => match parseStmt x with
       | some s => if fnNoJumpInHandlerOfTryWithFinally s then "none" else "jump_in_handler_of_try_with_finally"
